@@ -33,6 +33,7 @@ package types
 //@   ensures[C13] err == nil ==> len(b) > 0 && n == vs && result0 == b[len(b)-vs:]
 //@   ensures[C13] err != nil ==> len(result0) == 0
 //@   noalloc[C17]
+//@   ensures[C02] err == nil ==> validV(mem(b), lo(b), hi(b))
 
 // ---- lists
 
@@ -45,6 +46,7 @@ package types
 //@   ensures[C13] err == nil && len(b) > 0 ==> size == vs && l.bytes == b[len(b)-vs:]
 //@   ensures[C13] err == nil && len(b) == 0 ==> size == 0
 //@   noalloc[C17]
+//@   ensures[C13] err == nil && len(b) > 0 ==> obj(l.table.table) == obj(b) && lo(l.table.table) == tTab(mem(b), lo(b), hi(b)) && len(l.table.table) == tTS(mem(b), lo(b), hi(b)) && l.table.data == tDS(mem(b), lo(b), hi(b)) && (l.table.big <==> b[len(b)-1] == 71) && lo(l.bytes) == tDat(mem(b), lo(b), hi(b)) && (b[len(b)-1] == 70 || b[len(b)-1] == 71)
 
 //@ func OpenList
 //@   safety[C02]
@@ -67,6 +69,11 @@ package types
 //@   loop 1 invariant within(l.bytes, b) && l.table.data <= len(l.bytes) && within(l.table.table, l.bytes) && 0 <= size && size <= len(b)
 //@   loop 1 invariant[C13] len(b) > 0 ==> size == vs && l.bytes == b[len(b)-vs:]
 //@   noalloc[C17]
+//   C02: accepted ==> every element with a proper range is a valid value (recursively: validV)
+//@   ensures[C02] err == nil && len(b) > 0 ==> (forall k :: 0 <= k && k < lN(mem(b), lo(b), hi(b)) && lElemOK(mem(b), lo(b), hi(b), k) ==> validV(mem(b), lElemLo(mem(b), lo(b), hi(b), k), lElemHi(mem(b), lo(b), hi(b), k)))
+//@   loop 1 invariant[C02] len(b) > 0 ==> (forall k :: 0 <= k && k < i && lElemOK(mem(b), lo(b), hi(b), k) ==> validV(mem(b), lElemLo(mem(b), lo(b), hi(b), k), lElemHi(mem(b), lo(b), hi(b), k)))
+//@   loop 1 invariant[C02] len(b) > 0 ==> ln == lN(mem(b), lo(b), hi(b)) && obj(l.table.table) == obj(b) && lo(l.table.table) == tTab(mem(b), lo(b), hi(b)) && l.table.data == tDS(mem(b), lo(b), hi(b)) && (l.table.big <==> b[len(b)-1] == 71) && lo(l.bytes) == tDat(mem(b), lo(b), hi(b)) && obj(l.bytes) == obj(b)
+//@   assert[C02] after b1: len(b) > 0 ==> (lElemOK(mem(b), lo(b), hi(b), i) ==> obj(b1) == obj(b) && lo(b1) == lElemLo(mem(b), lo(b), hi(b), i) && hi(b1) == lElemHi(mem(b), lo(b), hi(b), i)) && (!lElemOK(mem(b), lo(b), hi(b), i) ==> len(b1) == 0)
 
 //@ func (List).Len
 //@   safety[C02]
@@ -132,6 +139,10 @@ package types
 //@   loop 1 invariant within(m.bytes, b) && m.table.data <= len(m.bytes) && within(m.table.table, m.bytes)
 //@   loop 1 invariant[C13] len(b) > 0 ==> size == vs && m.bytes == b[len(b)-vs:]
 //@   noalloc[C17]
+//   C02: accepted ==> every field with a proper offset holds a valid value (recursively: validV)
+//@   ensures[C02] err == nil && len(b) > 0 ==> (forall k :: 0 <= k && k < mN(mem(b), lo(b), hi(b)) && mFieldOK(mem(b), lo(b), hi(b), k) ==> validV(mem(b), tDat(mem(b), lo(b), hi(b)), mFieldHi(mem(b), lo(b), hi(b), k)))
+//@   loop 1 invariant[C02] len(b) > 0 ==> (forall k :: 0 <= k && k < i && mFieldOK(mem(b), lo(b), hi(b), k) ==> validV(mem(b), tDat(mem(b), lo(b), hi(b)), mFieldHi(mem(b), lo(b), hi(b), k)))
+//@   loop 1 invariant[C02] len(b) > 0 ==> num == mN(mem(b), lo(b), hi(b)) && obj(m.table.table) == obj(b) && lo(m.table.table) == tTab(mem(b), lo(b), hi(b)) && m.table.data == tDS(mem(b), lo(b), hi(b)) && (m.table.big <==> b[len(b)-1] == 81) && lo(m.bytes) == tDat(mem(b), lo(b), hi(b)) && obj(m.bytes) == obj(b)
 
 //@ func (Message).Empty
 //@   safety[C02]
